@@ -27,7 +27,7 @@ impl Deserialize for TransactionWitnessSets {
                 cbor_event::Len::Len(n) => arr.len() < n as usize,
                 cbor_event::Len::Indefinite => true,
             } {
-                if is_break_tag(raw, "TransactionWitnessSets")? {
+                if is_break_tag(raw, len, "TransactionWitnessSets")? {
                     break;
                 }
                 arr.push(TransactionWitnessSet::deserialize(raw)?);
